@@ -556,3 +556,6 @@ def _culprit(els_r):
         if o in kinds:
             return o
     return "per-value"
+
+
+RULE += (' Pipelines also contain FillRequest(Sequence(...), bufsize, yield_on_remainder=True) as a streaming element (no buffer during run: results one by one, block after block).')
